@@ -9,7 +9,11 @@ package object
 // node sets differ between the current and the previous epoch, and a recording Storage
 // that stands for the node's validate-and-store step (it validates the object it is
 // handed with the SDK's verification-field check and keeps what it accepts).
-// Oracle: vf31Expect - from the statement: stored only if the request signature is a valid
+// Two workloads: (1) single requests, each against a fresh Server (combination space);
+// (2) histories on ONE long-lived Server across epoch changes with churning container node
+// sets (vf31Histories) - whatever the node remembers from earlier requests or epochs must
+// not change the answer for the request at hand.
+// Oracle: vf31Judge - from the statement: stored only if the request signature is a valid
 // signature of a node of the object's container (current or previous epoch), the local
 // node is in that container now, and the object is valid; otherwise nothing stored and a
 // non-OK status.
@@ -99,6 +103,7 @@ type vf31Chain struct {
 	failSingle, failTwoCur, failTwoPrev error
 	manifested                          []string // which listings actually returned an injected error
 	calls                               map[string]int
+	epoch                               uint64 // what CurrentEpoch reports; cur/prev are the node sets of epoch / epoch-1
 }
 
 func (c *vf31Chain) ForEachContainerNodePublicKey(id cid.ID, f func([]byte) bool) error {
@@ -157,7 +162,7 @@ func (c *vf31Chain) IsOwnPublicKey(pub []byte) bool { return bytes.Equal(pub, c.
 func (c *vf31Chain) Get(cid.ID) (container.Container, error) {
 	return container.Container{}, nil
 }
-func (c *vf31Chain) CurrentEpoch() uint64         { return 10 }
+func (c *vf31Chain) CurrentEpoch() uint64         { return c.epoch }
 func (c *vf31Chain) CurrentBlock() uint32         { return 1000 }
 func (c *vf31Chain) CurrentEpochDuration() uint64 { return 240 }
 func (c *vf31Chain) InvokeContainedScript(*transaction.Transaction, *block.Header, *trigger.Type, *bool) (*result.Invoke, error) {
@@ -172,10 +177,13 @@ func (c *vf31Chain) LocalNodeUnderMaintenance() bool { return false }
 // environment: recording storage (stands for the node's validate-and-store step)
 
 type vf31Storage struct {
-	calls    int
-	lastObj  *object.Object
-	stored   map[oid.Address][]byte
-	failWith error
+	// calls, lastObj, storedNow describe the request being served (reset by the workload
+	// before every request); stored lives as long as the storage (one node's lifetime)
+	calls     int
+	lastObj   *object.Object
+	storedNow int
+	stored    map[oid.Address][]byte
+	failWith  error
 }
 
 func (s *vf31Storage) VerifyAndStoreObjectLocally(_ context.Context, obj object.Object) error {
@@ -188,6 +196,7 @@ func (s *vf31Storage) VerifyAndStoreObjectLocally(_ context.Context, obj object.
 		return fmt.Errorf("verif storage: invalid object: %w", err)
 	}
 	s.stored[oid.NewAddress(obj.GetContainerID(), obj.GetID())] = obj.Marshal()
+	s.storedNow++
 	return nil
 }
 func (s *vf31Storage) SearchObjects(context.Context, cid.ID, []objectcore.SearchFilter, []string, *objectcore.SearchCursor, uint16) ([]client.SearchResultItem, []byte, error) {
@@ -286,10 +295,109 @@ func vf31Fault(rng *rand.Rand) (error, string) {
 	}
 }
 
+// vf31Obs is one served request as the oracle sees it: the reference's answers (from the
+// statement and the model's membership) and what the node did.
+type vf31Obs struct {
+	pre                                                       string // evidence counter prefix ("" single requests, "history_" long-lived node)
+	envName, faultShape                                       string
+	manifested                                                []string
+	sigOK, hasHeader, senderIn, localIn, authorised, mayStore bool
+	stCalls, storedNow                                        int
+	lastObj                                                   *object.Object
+	mo                                                        *protoobject.Object
+	resp                                                      *protoobject.ReplicateResponse
+	rerr                                                      error
+	desc                                                      map[string]any
+	shape, senderName, objName                                string
+	scheme                                                    int
+}
+
+// vf31Judge compares what the node did with the reference; it reports whether the request
+// was accepted and stored in accordance with the reference.
+func vf31Judge(r *verifkit.Run, o vf31Obs) (accepted bool) {
+	pre := o.pre
+	statusOK := o.rerr == nil && o.resp != nil && o.resp.GetStatus().GetCode() == 0
+	code := "transport-error"
+	if o.rerr == nil && o.resp != nil {
+		code = fmt.Sprint(o.resp.GetStatus().GetCode())
+	}
+	r.Seen(pre+"status_codes", code)
+	o.desc["status"] = code
+	o.desc["storage_calls"] = o.stCalls
+	storedN := o.storedNow
+	faulted := len(o.manifested) > 0
+	for _, m := range o.manifested {
+		r.Count(pre+"placement_fault_manifested|"+m, 1)
+		r.Seen(pre+"placement_fault_shapes_manifested", o.faultShape)
+		if o.sigOK && o.hasHeader && !(o.senderIn && o.localIn) {
+			// the situation that matters: a correctly signed request of a non-member (or
+			// for a non-member) met a membership listing that failed
+			r.Seen(pre+"placement_faults_met_by_signed_unauthorised_requests", o.envName+"|"+m)
+		}
+	}
+	o.desc["placement_listings_failed"] = o.manifested
+	if o.faultShape != "" && o.sigOK && o.hasHeader && !(o.senderIn && o.localIn) {
+		r.Seen(pre+"placement_fault_environments_offered_to_signed_unauthorised_requests", o.envName)
+	}
+	shape := o.shape
+	switch {
+	case !o.authorised && o.stCalls > 0:
+		why := "signature"
+		switch {
+		case o.sigOK && !o.senderIn:
+			why = "sender-outside-container"
+		case o.sigOK && o.senderIn && !o.localIn:
+			why = "local-node-outside-container"
+		case o.sigOK && o.senderIn && o.localIn:
+			why = "object-without-header"
+		}
+		r.Violation("storage-reached-unauthorised|"+why+"|"+shape, "Replicate handed the object to the storage although the request is not authorised ("+why+")", o.desc)
+	case !o.mayStore && storedN > 0:
+		r.Violation("stored-invalid|"+shape, "object stored although the acceptance condition does not hold", o.desc)
+	case !o.mayStore && statusOK:
+		r.Violation("ok-status-without-store|"+shape, "OK status returned although nothing may be (and nothing was) stored", o.desc)
+	case o.mayStore && storedN == 1 && statusOK && !faulted:
+		accepted = true
+		r.Count(pre+"accepted_and_stored", 1)
+		r.Seen(pre+"accepted_sender_kinds", o.senderName)
+		r.Seen(pre+"accepted_schemes", fmt.Sprint(o.scheme))
+	case o.mayStore && faulted && storedN == 0 && !statusOK:
+		// sender and receiver are members, but a membership listing failed: refusing is fine
+		r.Count(pre+"refused_because_membership_listing_failed", 1)
+	case o.mayStore && faulted && storedN == 1 && statusOK:
+		// ... and so is storing (members by the model; the statement does not cover read failures)
+		accepted = true
+		r.Count(pre+"stored_for_members_although_membership_listing_failed", 1)
+	case o.mayStore:
+		// all conditions hold but the code refused: not judged ("only if"), must stay rare
+		r.Count(pre+"refused_though_all_conditions_hold", 1)
+		r.Seen(pre+"refused_though_valid_shapes", shape+"|code="+code)
+	default:
+		r.Count(pre+"rejected_nothing_stored", 1)
+		if o.stCalls > 0 {
+			r.Count(pre+"rejected_by_storage_validation_or_failure", 1)
+		} else {
+			r.Count(pre+"rejected_before_storage", 1)
+		}
+	}
+	if o.stCalls > 0 && o.lastObj != nil && o.authorised {
+		// what reached the storage is exactly what the request carried
+		if !bytes.Equal(vf31HexObj(o.lastObj.ProtoMessage()), vf31HexObj(o.mo)) {
+			r.Violation("storage-got-different-object|"+o.objName, "object handed to the storage differs from the object in the request", o.desc)
+		} else {
+			r.Count(pre+"storage_got_request_object", 1)
+		}
+	}
+	if o.stCalls > 1 {
+		r.Violation("storage-called-twice", "Replicate called the storage more than once", o.desc)
+	}
+	return accepted
+}
+
 func TestVerif_C31(t *testing.T) {
 	r := verifkit.Start(t, "C31", "exploration")
 	defer r.Finish()
-	r.SetRule("case = sender kind (5) x local node membership (3) x request signature kind (11) x scheme (3) x object kind (8) x environment (9: ok, unknown container, storage busy/error, placement read failure of both membership checks / the receiver check only / the sender check only / the previous-epoch part only / the current-epoch part of the sender check only, in 5 error shapes), two containers with different current/previous node sets; distinct = that tuple; every combination that is not all-valid must end with nothing stored and a non-OK status")
+	r.SetRule("case = sender kind (5) x local node membership (3) x request signature kind (11) x scheme (3) x object kind (8) x environment (9: ok, unknown container, storage busy/error, placement read failure of both membership checks / the receiver check only / the sender check only / the previous-epoch part only / the current-epoch part of the sender check only, in 5 error shapes), two containers with different current/previous node sets; distinct = that tuple; every combination that is not all-valid must end with nothing stored and a non-OK status.  Plus histories: one long-lived Server serves 3-8 requests per epoch over 8-15 epochs (ticks +1, rarely +2/+3) while the node sets of two containers churn (nodes and the local node join/leave, a container may be removed), senders return across epochs, objects are re-sent, per-request faults; every request is judged on the model membership of its own epoch; distinct = sequence of (sender state, local state, earlier-request relation, signature, object, environment)")
 	r.Assume("the Storage behind Server.Replicate validates what it is given (C24 monitors the real validate-and-store step); here a recording Storage validates with the SDK's verification-field check")
 	nCases := r.Pick(20000, 400000)
 
@@ -313,7 +421,7 @@ func TestVerif_C31(t *testing.T) {
 		sigKind, objKind, envKind := pick(len(vf31SigKinds), 6), pick(len(vf31ObjKinds), 6), pick(len(vf31EnvKinds), 7)
 		scheme := rng.IntN(3)
 
-		chain := &vf31Chain{local: local.pub, calls: map[string]int{},
+		chain := &vf31Chain{local: local.pub, calls: map[string]int{}, epoch: 10,
 			cur:  map[cid.ID][][]byte{cnrA: {nCurA.pub}, cnrB: {nCurB.pub, local.pub}},
 			prev: map[cid.ID][][]byte{cnrA: {nPrevA.pub, nCurA.pub}, cnrB: {nCurB.pub}},
 		}
@@ -482,78 +590,13 @@ func TestVerif_C31(t *testing.T) {
 			r.Sample(map[string]any{"case": ci, "sender": vf31SenderKinds[senderKind], "local": vf31LocalKinds[localKind], "signature": vf31SigKinds[sigKind], "scheme": scheme,
 				"object": vf31ObjKinds[objKind], "environment": vf31EnvKinds[envKind], "reference_may_store": mayStore, "reference_authorised": authorised})
 		}
-		statusOK := rerr == nil && resp != nil && resp.GetStatus().GetCode() == 0
-		code := "transport-error"
-		if rerr == nil && resp != nil {
-			code = fmt.Sprint(resp.GetStatus().GetCode())
-		}
-		r.Seen("status_codes", code)
-		storedN := len(st.stored)
-		faulted := len(chain.manifested) > 0
-		for _, m := range chain.manifested {
-			r.Count("placement_fault_manifested|"+m, 1)
-			r.Seen("placement_fault_shapes_manifested", faultShape)
-			if sigOK && mo.Header != nil && !(senderIn && localIn) {
-				// the situation that matters: a correctly signed request of a non-member (or
-				// for a non-member) met a membership listing that failed
-				r.Seen("placement_faults_met_by_signed_unauthorised_requests", vf31EnvKinds[envKind]+"|"+m)
-			}
-		}
-		desc["placement_listings_failed"] = chain.manifested
-		if faultShape != "" && sigOK && mo.Header != nil && !(senderIn && localIn) {
-			r.Seen("placement_fault_environments_offered_to_signed_unauthorised_requests", vf31EnvKinds[envKind])
-		}
-		shape := fmt.Sprintf("sender=%s|local=%s|sig=%s|object=%s|env=%s", vf31SenderKinds[senderKind], vf31LocalKinds[localKind], vf31SigKinds[sigKind], vf31ObjKinds[objKind], vf31EnvKinds[envKind])
-		switch {
-		case !authorised && st.calls > 0:
-			why := "signature"
-			switch {
-			case sigOK && !senderIn:
-				why = "sender-outside-container"
-			case sigOK && senderIn && !localIn:
-				why = "local-node-outside-container"
-			case sigOK && senderIn && localIn:
-				why = "object-without-header"
-			}
-			r.Violation("storage-reached-unauthorised|"+why+"|"+shape, "Replicate handed the object to the storage although the request is not authorised ("+why+")", desc)
-		case !mayStore && storedN > 0:
-			r.Violation("stored-invalid|"+shape, "object stored although the acceptance condition does not hold", desc)
-		case !mayStore && statusOK:
-			r.Violation("ok-status-without-store|"+shape, "OK status returned although nothing may be (and nothing was) stored", desc)
-		case mayStore && storedN == 1 && statusOK:
-			r.Count("accepted_and_stored", 1)
-			r.Seen("accepted_sender_kinds", vf31SenderKinds[senderKind])
-			r.Seen("accepted_schemes", fmt.Sprint(scheme))
-		case mayStore && faulted && storedN == 0 && !statusOK:
-			// sender and receiver are members, but a membership listing failed: refusing is fine
-			r.Count("refused_because_membership_listing_failed", 1)
-		case mayStore && faulted && storedN == 1 && statusOK:
-			// ... and so is storing (members by the model; the statement does not cover read failures)
-			r.Count("stored_for_members_although_membership_listing_failed", 1)
-		case mayStore:
-			// all conditions hold but the code refused: not judged ("only if"), must stay rare
-			r.Count("refused_though_all_conditions_hold", 1)
-			r.Seen("refused_though_valid_shapes", shape+"|code="+code)
-		default:
-			r.Count("rejected_nothing_stored", 1)
-			if st.calls > 0 {
-				r.Count("rejected_by_storage_validation_or_failure", 1)
-			} else {
-				r.Count("rejected_before_storage", 1)
-			}
-		}
-		if st.calls > 0 && st.lastObj != nil && authorised {
-			// what reached the storage is exactly what the request carried
-			if !bytes.Equal(vf31HexObj(st.lastObj.ProtoMessage()), vf31HexObj(mo)) {
-				r.Violation("storage-got-different-object|"+vf31ObjKinds[objKind], "object handed to the storage differs from the object in the request", desc)
-			} else {
-				r.Count("storage_got_request_object", 1)
-			}
-		}
-		if st.calls > 1 {
-			r.Violation("storage-called-twice", "Replicate called the storage more than once", desc)
-		}
+		vf31Judge(r, vf31Obs{envName: vf31EnvKinds[envKind], faultShape: faultShape, manifested: chain.manifested,
+			sigOK: sigOK, hasHeader: mo.Header != nil, senderIn: senderIn, localIn: localIn, authorised: authorised, mayStore: mayStore,
+			stCalls: st.calls, storedNow: st.storedNow, lastObj: st.lastObj, mo: mo, resp: resp, rerr: rerr, desc: desc,
+			shape:      fmt.Sprintf("sender=%s|local=%s|sig=%s|object=%s|env=%s", vf31SenderKinds[senderKind], vf31LocalKinds[localKind], vf31SigKinds[sigKind], vf31ObjKinds[objKind], vf31EnvKinds[envKind]),
+			senderName: vf31SenderKinds[senderKind], objName: vf31ObjKinds[objKind], scheme: scheme})
 	}
+	vf31Histories(r)
 	if r.Counter("accepted_and_stored") == 0 || r.SeenCount("accepted_schemes") < 3 || r.SeenCount("accepted_sender_kinds") < 2 {
 		r.Inconclusive("accepted replications not observed for every scheme / sender kind")
 	}
@@ -562,6 +605,432 @@ func TestVerif_C31(t *testing.T) {
 	}
 	if r.Counter("refused_though_all_conditions_hold") > 0 {
 		r.Inconclusive(fmt.Sprintf("%d fully valid replications were refused: baseline is broken", r.Counter("refused_though_all_conditions_hold")))
+	}
+}
+
+// ---------------------------------------------------------------------------------------
+// Histories: ONE long-lived node (one Server, one storage) serves a sequence of replication
+// requests while epochs tick and the containers' node sets change.  The statement is about
+// every single request ("in the current or previous epoch" of the moment the request is
+// served), so nothing the node has seen or decided earlier may change the answer: the
+// reference evaluates every request on the model's membership of the epoch it arrives in.
+
+var vf31HistSigKinds = [...]string{"valid", "sig-bitflip", "key-bitflip", "signed-other-id", "claimed-member-key", "scheme-mismatch"}
+var vf31HistObjKinds = [...]string{"valid", "valid-resent-earlier-object", "header-changed", "payload-changed", "container-switched"}
+var vf31HistEnvKinds = [...]string{"ok", "storage-busy", "storage-error", "placement-error", "placement-error-receiver-check-only",
+	"placement-error-sender-check-only", "placement-error-previous-epoch-only", "placement-error-current-epoch-part-of-sender-check"}
+
+// vf31Membership is the truth about one container: node keys per epoch (absent epoch = no
+// nodes), and the epoch from which the container no longer exists (0 = never removed).
+type vf31Membership struct {
+	at          map[uint64][][]byte
+	removedFrom uint64
+}
+
+func (m *vf31Membership) exists(e uint64) bool { return m.removedFrom == 0 || e < m.removedFrom }
+func (m *vf31Membership) in(e uint64, k []byte) bool {
+	return m.exists(e) && vf31Contains(m.at[e], k)
+}
+
+// how long ago k was a node of the container, seen from epoch e: 0 now, 1 previous epoch,
+// n >= 2 lapsed, -1 never (within the history)
+func (m *vf31Membership) lastIn(e uint64, k []byte) int {
+	for d := uint64(0); d <= e; d++ {
+		if vf31Contains(m.at[e-d], k) {
+			return int(d)
+		}
+	}
+	return -1
+}
+
+func vf31MemberState(d int) string {
+	switch {
+	case d == 0:
+		return "member-now"
+	case d == 1:
+		return "member-in-previous-epoch-only"
+	case d == 2:
+		return "member-until-two-epochs-ago"
+	case d > 2:
+		return "member-longer-ago"
+	}
+	return "never-member"
+}
+
+func vf31Histories(r *verifkit.Run) {
+	nHist := r.Pick(220, 4400)
+	ctx := context.Background()
+	prng := r.Rand("history-pool", 0)
+	local, outsider, owner := vf31NewKey(prng), vf31NewKey(prng), vf31NewKey(prng)
+	nodes := make([]vf31Key, 5)
+	for i := range nodes {
+		nodes[i] = vf31NewKey(prng)
+	}
+	ownerID := user.NewFromECDSAPublicKey(owner.priv.PublicKey)
+	senderName := func(i int) string {
+		switch {
+		case i < len(nodes):
+			return fmt.Sprintf("n%d", i)
+		case i == len(nodes):
+			return "outsider"
+		}
+		return "local"
+	}
+	senderKey := func(i int) vf31Key {
+		switch {
+		case i < len(nodes):
+			return nodes[i]
+		case i == len(nodes):
+			return outsider
+		}
+		return local
+	}
+
+	for hi := 0; hi < nHist; hi++ {
+		rng := r.Rand("history", hi)
+		cnrs := [2]cid.ID{verifkit.RandCID(rng), verifkit.RandCID(rng)}
+		mem := [2]*vf31Membership{{at: map[uint64][][]byte{}}, {at: map[uint64][][]byte{}}}
+		// node sets evolve epoch by epoch: a node stays with p=.6, joins with p=.3; the local
+		// node stays with p=.85 and (re)joins with p=.5
+		evolve := func(m *vf31Membership, from uint64) {
+			var next [][]byte
+			for i := range nodes {
+				was := vf31Contains(m.at[from], nodes[i].pub)
+				if was && rng.IntN(10) < 6 || !was && rng.IntN(10) < 3 {
+					next = append(next, nodes[i].pub)
+				}
+			}
+			was := vf31Contains(m.at[from], local.pub)
+			if was && rng.IntN(100) < 85 || !was && rng.IntN(2) == 0 {
+				next = append(next, local.pub)
+			}
+			rng.Shuffle(len(next), func(i, j int) { next[i], next[j] = next[j], next[i] })
+			m.at[from+1] = next
+		}
+		var epoch uint64
+		if rng.IntN(5) > 0 {
+			epoch = 1 + uint64(rng.IntN(40))
+		}
+		for _, m := range mem {
+			first := epoch
+			if epoch > 0 {
+				first = epoch - 1
+			}
+			for i := range nodes {
+				if rng.IntN(2) == 0 {
+					m.at[first] = append(m.at[first], nodes[i].pub)
+				}
+			}
+			if rng.IntN(5) > 0 {
+				m.at[first] = append(m.at[first], local.pub)
+			}
+			if epoch > 0 {
+				evolve(m, first)
+			}
+		}
+
+		chain := &vf31Chain{local: local.pub, calls: map[string]int{}}
+		st := &vf31Storage{stored: map[oid.Address][]byte{}}
+		// the model chain serves what the truth says about the epoch the node is in
+		publish := func() {
+			chain.epoch = epoch
+			chain.cur, chain.prev = map[cid.ID][][]byte{}, map[cid.ID][][]byte{}
+			for i, m := range mem {
+				if !m.exists(epoch) {
+					continue
+				}
+				chain.cur[cnrs[i]] = append([][]byte{}, m.at[epoch]...) // non-nil: the container exists
+				if epoch > 0 {
+					chain.prev[cnrs[i]] = m.at[epoch-1]
+				}
+			}
+		}
+		publish()
+		srv := New(nil, chain, st, nil, *local.priv, nil, nil, nil, nil, zap.NewNop())
+
+		var log []string
+		logEpoch := func() {
+			l := fmt.Sprintf("epoch %d:", epoch)
+			for i, m := range mem {
+				l += fmt.Sprintf(" %c=", 'A'+i)
+				if !m.exists(epoch) {
+					l += "removed"
+					continue
+				}
+				l += "{"
+				for _, k := range m.at[epoch] {
+					for si := 0; si < len(nodes)+2; si++ {
+						if bytes.Equal(senderKey(si).pub, k) {
+							l += senderName(si) + " "
+						}
+					}
+				}
+				l += "}"
+			}
+			log = append(log, l)
+		}
+		if epoch > 0 {
+			epoch--
+			logEpoch()
+			epoch++
+		}
+		logEpoch()
+
+		type pair struct{ sender, cnr int }
+		// what the reference said about earlier requests of the history (generator-side
+		// knowledge, independent of what the node answered)
+		refStoreEpoch := map[pair]uint64{}   // (sender, container) -> last epoch in which the reference allowed a store
+		refDenyEpoch := map[pair]uint64{}    // ... -> last epoch in which a correctly signed request had to be refused
+		cnrRefStoreEpoch := map[int]uint64{} // container -> last epoch with an allowed store
+		var recent []pair                    // senders of this and the last served epoch
+		var recentMark int
+		var sent [2][]*protoobject.Object // valid objects sent earlier, per container
+		nEpochs := 8 + rng.IntN(8)
+		histSig := ""
+
+		for ei := 0; ei < nEpochs; ei++ {
+			if ei > 0 {
+				// epoch tick: +1, rarely +2/+3 (the truth has node sets for the skipped epochs too)
+				step := 1
+				if rng.IntN(10) == 0 {
+					step += 1 + rng.IntN(2)
+				}
+				for ; step > 0; step-- {
+					for i, m := range mem {
+						evolve(m, epoch)
+						if i == 1 && m.removedFrom == 0 && rng.IntN(40) == 0 {
+							m.removedFrom = epoch + 1
+						}
+					}
+					epoch++
+				}
+				publish()
+				r.Count("history_epoch_ticks", 1)
+				logEpoch()
+				recent = recent[recentMark:]
+				recentMark = len(recent)
+			}
+			for q, nReq := 0, 3+rng.IntN(6); q < nReq; q++ {
+				// who sends for which container: often somebody who sent in this or the last epoch
+				var pr pair
+				if len(recent) > 0 && rng.IntN(100) < 45 {
+					pr = recent[rng.IntN(len(recent))]
+				} else {
+					switch x := rng.IntN(10); {
+					case x < 8:
+						pr.sender = rng.IntN(len(nodes))
+					case x == 8:
+						pr.sender = len(nodes)
+					default:
+						pr.sender = len(nodes) + 1
+					}
+					if rng.IntN(100) < 35 {
+						pr.cnr = 1
+					}
+				}
+				sigKind, objKind, envKind := 0, 0, 0
+				if rng.IntN(100) >= 78 {
+					sigKind = 1 + rng.IntN(len(vf31HistSigKinds)-1)
+				}
+				if rng.IntN(100) >= 75 {
+					objKind = 1 + rng.IntN(len(vf31HistObjKinds)-1)
+				}
+				if rng.IntN(100) >= 80 {
+					envKind = 1 + rng.IntN(len(vf31HistEnvKinds)-1)
+				}
+				scheme := rng.IntN(3)
+				sender := senderKey(pr.sender)
+
+				// the object
+				objCnr := pr.cnr
+				var mo *protoobject.Object
+				objValid := true
+				if objKind == 1 && len(sent[pr.cnr]) > 0 {
+					mo = proto.Clone(sent[pr.cnr][rng.IntN(len(sent[pr.cnr]))]).(*protoobject.Object)
+				} else {
+					if objKind == 1 {
+						objKind = 0
+					}
+					obj := object.New(cnrs[pr.cnr], ownerID)
+					ver := version.Current()
+					obj.SetVersion(&ver)
+					obj.SetPayload(verifkit.RandBytes(rng, rng.IntN(64)))
+					obj.SetPayloadSize(uint64(len(obj.Payload())))
+					obj.SetCreationEpoch(epoch)
+					if err := obj.SetVerificationFields(owner.signer(rng.IntN(2))); err != nil {
+						r.Inconclusive("cannot finalise object: " + err.Error())
+						return
+					}
+					mo = obj.ProtoMessage()
+					switch objKind {
+					case 0:
+						sent[pr.cnr] = append(sent[pr.cnr], proto.Clone(mo).(*protoobject.Object))
+					case 2:
+						mo.Header.CreationEpoch++
+						objValid = false
+					case 3:
+						mo.Payload = append(bytes.Clone(mo.Payload), 1)
+						objValid = false
+					case 4:
+						objCnr = 1 - pr.cnr
+						mo.Header.ContainerId = cnrs[objCnr].ProtoMessage()
+						objValid = false
+					}
+				}
+
+				// the request signature
+				idBytes := mo.GetObjectId().GetValue()
+				signed := idBytes
+				if sigKind == 3 {
+					other := verifkit.RandOID(rng)
+					signed = other[:]
+				}
+				sigBytes, err := sender.signer(scheme).Sign(signed)
+				if err != nil {
+					r.Inconclusive("cannot sign request: " + err.Error())
+					return
+				}
+				sig := &refs.Signature{Key: bytes.Clone(sender.pub), Sign: sigBytes, Scheme: refs.SignatureScheme(scheme)}
+				switch sigKind {
+				case 1:
+					sig.Sign[rng.IntN(len(sig.Sign))] ^= 1 << rng.IntN(8)
+				case 2:
+					sig.Key[1+rng.IntN(32)] ^= 1 << rng.IntN(8)
+				case 4:
+					// somebody else's signature presented under the sender's key
+					s2, _ := vf31NewKey(rng).signer(scheme).Sign(signed)
+					sig.Sign = s2
+				case 5:
+					sig.Scheme = refs.SignatureScheme((scheme + 1 + rng.IntN(2)) % 3)
+				}
+				req := &protoobject.ReplicateRequest{Object: mo, Signature: sig}
+
+				// faults of this one request
+				chain.failSingle, chain.failTwoCur, chain.failTwoPrev, chain.manifested = nil, nil, nil, nil
+				st.failWith, st.calls, st.lastObj, st.storedNow = nil, 0, nil, 0
+				faultShape := ""
+				switch envKind {
+				case 1:
+					st.failWith = apistatus.ErrBusy
+				case 2:
+					st.failWith = errors.New("verif: injected storage failure")
+				case 3:
+					chain.failSingle, faultShape = vf31Fault(rng)
+					chain.failTwoCur, chain.failTwoPrev = chain.failSingle, chain.failSingle
+				case 4:
+					chain.failSingle, faultShape = vf31Fault(rng)
+				case 5:
+					chain.failTwoCur, faultShape = vf31Fault(rng)
+					chain.failTwoPrev = chain.failTwoCur
+				case 6:
+					chain.failTwoPrev, faultShape = vf31Fault(rng)
+				case 7:
+					chain.failTwoCur, faultShape = vf31Fault(rng)
+				}
+
+				// reference: the statement on the truth of THIS epoch
+				m := mem[objCnr]
+				sigOK := vf31SigValid(idBytes, sig)
+				senderIn := m.exists(epoch) && (m.in(epoch, sig.Key) || epoch > 0 && vf31Contains(m.at[epoch-1], sig.Key))
+				localIn := m.in(epoch, local.pub)
+				authorised := sigOK && senderIn && localIn
+				mayStore := authorised && objValid && st.failWith == nil
+
+				// what the history offers (from the reference's view of earlier requests)
+				opr := pair{pr.sender, objCnr}
+				senderState, localState := vf31MemberState(m.lastIn(epoch, sender.pub)), vf31MemberState(m.lastIn(epoch, local.pub))
+				if !m.exists(epoch) {
+					senderState, localState = "container-removed", "container-removed"
+				}
+				earlier := "no-earlier-request"
+				if e, ok := refStoreEpoch[opr]; ok {
+					earlier = "sender-accepted-earlier-in-this-epoch"
+					if e < epoch {
+						earlier = "sender-accepted-in-an-earlier-epoch"
+					}
+				} else if _, ok := refDenyEpoch[opr]; ok {
+					earlier = "sender-only-refused-before"
+				}
+				if sigOK && localIn && !senderIn {
+					if e, ok := refStoreEpoch[opr]; ok {
+						// the sender was a legitimate replicator for this node earlier and is not any more
+						r.Count("history_offered_sender_whose_membership_lapsed_after_accepted_request", 1)
+						r.Seen("history_lapsed_sender_epochs_since_accepted_request", fmt.Sprint(min(epoch-e, 5)))
+						r.Seen("history_lapsed_sender_states", senderState)
+					}
+				}
+				if sigOK && senderIn && !localIn {
+					if _, ok := cnrRefStoreEpoch[objCnr]; ok {
+						r.Count("history_offered_request_after_local_node_left_container_it_stored_for", 1)
+					}
+				}
+				if sigOK && senderIn && localIn {
+					if _, ok := refDenyEpoch[opr]; ok {
+						r.Count("history_offered_member_that_had_to_be_refused_earlier", 1)
+					}
+					if senderState == "member-in-previous-epoch-only" {
+						r.Count("history_offered_sender_of_previous_epoch_only", 1)
+					}
+				}
+
+				log = append(log, fmt.Sprintf("request %s -> %c: sig=%s/%d object=%s env=%s; sender %s, local node %s; reference: authorised=%v may-store=%v",
+					senderName(pr.sender), 'A'+objCnr, vf31HistSigKinds[sigKind], scheme, vf31HistObjKinds[objKind], vf31HistEnvKinds[envKind], senderState, localState, authorised, mayStore))
+				desc := map[string]any{"history": hi, "epoch": epoch, "request_no": len(log), "sender": senderName(pr.sender), "container": string(rune('A' + objCnr)),
+					"signature": vf31HistSigKinds[sigKind], "scheme": scheme, "object": vf31HistObjKinds[objKind], "environment": vf31HistEnvKinds[envKind],
+					"placement_fault_shape": faultShape, "sender_state": senderState, "local_node_state": localState, "earlier": earlier,
+					"request_hex": vf31Hex(req), "history_so_far": append([]string{}, log...)}
+				var resp *protoobject.ReplicateResponse
+				var rerr error
+				r.Eval(1)
+				if r.Guard(desc, func() { resp, rerr = srv.Replicate(ctx, req) }) {
+					continue
+				}
+				envName := vf31HistEnvKinds[envKind]
+				accepted := vf31Judge(r, vf31Obs{pre: "history_", envName: envName, faultShape: faultShape, manifested: chain.manifested,
+					sigOK: sigOK, hasHeader: true, senderIn: senderIn, localIn: localIn, authorised: authorised, mayStore: mayStore,
+					stCalls: st.calls, storedNow: st.storedNow, lastObj: st.lastObj, mo: mo, resp: resp, rerr: rerr, desc: desc,
+					shape:      fmt.Sprintf("history|sender=%s|local=%s|sig=%s|object=%s|env=%s|earlier=%s", senderState, localState, vf31HistSigKinds[sigKind], vf31HistObjKinds[objKind], envName, earlier),
+					senderName: senderState, objName: vf31HistObjKinds[objKind], scheme: scheme})
+				if accepted {
+					log[len(log)-1] += " -> stored"
+				} else {
+					log[len(log)-1] += fmt.Sprintf(" -> status %v, stored %d", desc["status"], st.storedNow)
+				}
+				histSig += fmt.Sprintf("%s|%s|%s|%d|%d|%d;", senderState, localState, earlier, sigKind, objKind, envKind)
+				r.Seen("history_request_situations", senderState+"|"+localState+"|"+earlier)
+
+				if mayStore {
+					refStoreEpoch[opr], cnrRefStoreEpoch[objCnr] = epoch, epoch
+				} else if sigOK && !authorised {
+					refDenyEpoch[opr] = epoch
+				}
+				if sigKind == 0 || sigKind == 3 {
+					recent = append(recent, pr)
+				}
+			}
+		}
+		r.Distinct("history|" + histSig)
+		if hi < 2 {
+			r.Sample(map[string]any{"history": hi, "log": log})
+		}
+	}
+	// the histories must have offered the situations that make a long-lived node different
+	// from a fresh one (counted from the model, independent of the node's answers)
+	for _, c := range []string{"history_offered_sender_whose_membership_lapsed_after_accepted_request",
+		"history_offered_request_after_local_node_left_container_it_stored_for",
+		"history_offered_member_that_had_to_be_refused_earlier", "history_offered_sender_of_previous_epoch_only"} {
+		if r.Counter(c) < 10 {
+			r.Inconclusive(fmt.Sprintf("histories: situation %s offered only %d times", c, r.Counter(c)))
+		}
+	}
+	if r.SeenCount("history_lapsed_sender_epochs_since_accepted_request") < 3 {
+		r.Inconclusive("histories: lapsed senders returned after fewer than 3 different epoch distances")
+	}
+	if r.Counter("history_accepted_and_stored") == 0 || r.SeenCount("history_accepted_schemes") < 3 {
+		r.Inconclusive("histories: accepted replications not observed for every scheme")
+	}
+	if r.Counter("history_refused_though_all_conditions_hold") > 0 {
+		r.Inconclusive(fmt.Sprintf("histories: %d fully valid replications were refused: baseline is broken", r.Counter("history_refused_though_all_conditions_hold")))
 	}
 }
 
